@@ -955,7 +955,10 @@ def multisig_stacks(kr, digest, rnd):
     out.append(('0of2', [b'', num(0), P[0], P[1], num(2)]))
     out.append(('0of0', [b'', num(0), num(0)]))
     out.append(('m-gt-n', [b'', S(0), S(1), num(2), P[0], num(1)]))
-    out.append(('n-negative', [b'', S(0), num(1), P[0], num(-1)]))
+    out.append(('n-negative', [b'', S(0), num(1), num(-1)]))
+    out.append(('n-negative-nonnull-dummy', [b'\x01', S(0), num(1), num(-1)]))
+    out.append(('counts-zero-and-negative-nonnull-dummy', [b'\x01', num(0), num(-1)]))
+    out.append(('counts-zero-and-negative-no-dummy', [num(0), num(-1)]))
     out.append(('n-21', [b''] + [S(0)] + [num(1)] + [P[0]] * 21 + [num(21)]))
     out.append(('n-20', [b''] + [S(0)] + [num(1)] + [P[1]] * 19 + [P[0]] + [num(20)]))
     out.append(('n-5byte', [b'', S(0), num(1), P[0], b'\x01\x00\x00\x00\x00']))
